@@ -36,6 +36,7 @@ type Exec struct {
 	counters  []*TrackClause
 	unsupported []string
 	inSpec bool
+	matched map[string]bool
 	poolVals map[string]bool
 	freshStore bool
 	assumeNil bool
@@ -495,21 +496,48 @@ func (x *Exec) mergeStates(edges []edge) *State {
 		x.epochCtr++
 		out.epoch = x.epochCtr
 	}
-	// cells present in every predecessor
-	for c, v0 := range edges[0].st.cells {
-		vals := []Value{v0}
-		ok := true
-		for _, e := range edges[1:] {
-			v, has := e.st.cells[c]
-			if !has {
-				ok = false
-				break
+	// local cells: a cell missing on an edge is a variable not (yet) declared on that path; any
+	// value will do there
+	cellSet := map[*ssa.Alloc]bool{}
+	var cellList []*ssa.Alloc
+	for _, e := range edges {
+		for c := range e.st.cells {
+			if !cellSet[c] {
+				cellSet[c] = true
+				cellList = append(cellList, c)
 			}
-			vals = append(vals, v)
 		}
-		if ok {
-			out.cells[c] = x.mergeValues(vals, pcs, c.Type().(*types.Pointer).Elem(), c.Comment)
+	}
+	sort.Slice(cellList, func(i, j int) bool {
+		if cellList[i].Pos() != cellList[j].Pos() {
+			return cellList[i].Pos() < cellList[j].Pos()
 		}
+		return cellList[i].Name() < cellList[j].Name()
+	})
+	for _, c := range cellList {
+		var vals []Value
+		var have Value
+		all := true
+		for _, e := range edges {
+			if v, has := e.st.cells[c]; has {
+				have = v
+			} else {
+				all = false
+			}
+		}
+		if !all {
+			if _, okf := flatten(have); !okf {
+				continue
+			}
+		}
+		for _, e := range edges {
+			if v, has := e.st.cells[c]; has {
+				vals = append(vals, v)
+			} else {
+				vals = append(vals, have)
+			}
+		}
+		out.cells[c] = x.mergeValues(vals, pcs, c.Type().(*types.Pointer).Elem(), c.Comment)
 	}
 	// defers
 	dset := map[*ssa.Defer]bool{}
@@ -1135,7 +1163,7 @@ func (x *Exec) loadElem(fr *Frame, st *State, b Backing, idx Term, et types.Type
 	if t.Sort == SStr {
 		x.vc.strFacts(t)
 	}
-	if kindOf(et) == KInt {
+	if kindOf(et) == KInt && !strings.Contains(t.S, "!q") {
 		x.vc.Assert(x.rangeFact(t, et))
 	}
 	return VTerm{t}
